@@ -51,7 +51,7 @@ def h09_timeout_cleanup(S):
     S.check("no-stall", out["returned"])
 
 
-def h09(S, n_jobs=2, queues=1, max_limit=3, dmax_us=3000, late=False, backend="mem", late_max_us=None, fixed_d_us=None):
+def h09(S, n_jobs=2, queues=1, max_limit=3, dmax_us=3000, late=False, backend="mem", late_max_us=None, fixed_d_us=None, self_cancel=False):
     from repid import Job, Router, Worker
     from repid.converter import BasicConverter
 
@@ -62,6 +62,8 @@ def h09(S, n_jobs=2, queues=1, max_limit=3, dmax_us=3000, late=False, backend="m
     else:
         d = [S.real(f"d{i}", 0, dmax, lo_strict=True) for i in range(n_jobs)]
     fails = [S.bool(f"fail{i}") for i in range(n_jobs)]
+    # an invocation may also end in CancelledError of its own making (it awaited something that was cancelled elsewhere)
+    cancels = [S.flag(f"ends_cancelled{i}") if self_cancel and i == 0 else False for i in range(n_jobs)]
     burst = late and late_max_us is not None
     if burst:
         # the worker is up and idle first; a burst arrives at 0.5 s + phase (any polling phase of the consumer),
@@ -90,6 +92,8 @@ def h09(S, n_jobs=2, queues=1, max_limit=3, dmax_us=3000, late=False, backend="m
                 state["running"] -= 1
                 state["done"].append(i)
                 log.append(("exit", i, state["running"]))
+                if cancels[i]:
+                    raise asyncio.CancelledError()
                 if fails[i]:
                     raise ValueError("x")
         n_pre = 0 if burst else (n_jobs - 1 if late else n_jobs)
@@ -159,10 +163,11 @@ def h09(S, n_jobs=2, queues=1, max_limit=3, dmax_us=3000, late=False, backend="m
 HARNESSES = [
     Harness(
         name="H09-mem", scenario=h09, workers=16, budget_s=900,
-        params={"quick": {"n_jobs": 2, "queues": 1, "dmax_us": 3000},
-                "thorough": {"n_jobs": 3, "queues": 1, "dmax_us": 3000}},
+        params={"quick": {"n_jobs": 2, "queues": 1, "dmax_us": 3000, "self_cancel": True},
+                "thorough": {"n_jobs": 3, "queues": 1, "dmax_us": 3000, "self_cancel": True}},
         bounds={"tasks_limit": "[1, 3] (symbolic, flows into the real asyncio.Semaphore)", "jobs": "2 quick / 3 thorough, pre-enqueued",
-                "actor durations": "each any real value in (0, 3 ms] (symbolic timers, linear real arithmetic)", "failure flags": "any"},
+                "actor durations": "each any real value in (0, 3 ms] (symbolic timers, linear real arithmetic)",
+                "outcomes": "return, raise, and (first job) end in a CancelledError of its own making"},
         functions=["_runner.py:_Runner._run_consumer", "_runner.py:_Runner._task_callback", "worker.py:Worker.run"],
         covers=["run-returned", "pause-observed"],
         outside=["RabbitMQ prefetch (server)", "sync actors (thread pool)", "durations above 3 ms (ordering classes repeat with the 1 ms polling period)"],
